@@ -140,7 +140,17 @@ func (s c24Schema) evaluate(sn *c24Snapshot) []c24Violation {
 	return out
 }
 
+// a merge lists false unique-index violations when the merged-in branch moved a row away from
+// a unique value and gave that value to another row
+const c24FindingFalseUniq = "C24-merge-false-unique-violation-reused-key"
+
 type c24State struct {
+	// set in the merge part while finding C24-merge-false-unique-violation-reused-key is open:
+	// the heads of the branch merged into (ours) and of the merged-in branch (theirs)
+	tolerateFalseUniq bool
+	ours, theirs      *c24Snapshot
+	excluded          int
+
 	rt     *rapid.T
 	srv    *vsql.Server
 	db     string
@@ -273,11 +283,69 @@ func (c *c24State) checkRoot(s *vsql.Session, asOf, what string, allowListed boo
 		if !found {
 			c.failf("%s: dolt_constraint_violations_%s lists row %s (%s) which is not in the table\n  table: %s", what, v.table, sxShowRow(listed[v]), v.typ, sxShowRows(sxSortRows(rows)))
 		}
+		if !realSet[v] && c.knownFalseUniq(v, listed[v]) {
+			continue
+		}
 		if !realSet[v] {
 			c.failf("%s: dolt_constraint_violations_%s lists row %s as a %s violation, but the row satisfies that constraint\n  p: %s\n  c: %s", what, v.table, sxShowRow(listed[v]), v.typ, sxShowRows(sxSortRows(sn.P)), sxShowRows(sxSortRows(sn.C)))
 		}
 	}
 	return len(real)
+}
+
+func (c *c24State) uniqKey(r []string) string {
+	if r == nil || r[2] == vsql.Null || (c.sch.uniq2 && r[3] == vsql.Null) {
+		return ""
+	}
+	if c.sch.uniq2 {
+		return r[2] + "/" + r[3]
+	}
+	return r[2]
+}
+
+func c24RowByID(sn *c24Snapshot, id string) []string {
+	for _, r := range sn.C {
+		if r[0] == id {
+			return r
+		}
+	}
+	return nil
+}
+
+// knownFalseUniq recognises the shape of finding C24-merge-false-unique-violation-reused-key
+// for a falsely listed unique violation of child row `row`: the merged-in branch (theirs)
+// moved some row M away from unique key k (M has k in ours, another key in theirs) and another
+// row T holds k in theirs; dolt lists M and T. The listed row must be such an M or T.
+func (c *c24State) knownFalseUniq(v c24Violation, row []string) bool {
+	if !c.tolerateFalseUniq || v.table != "c" || v.typ != "unique index" || c.ours == nil || c.theirs == nil {
+		return false
+	}
+	movers := map[string]string{} // id -> key it left
+	for _, o := range c.ours.C {
+		k := c.uniqKey(o)
+		t := c24RowByID(c.theirs, o[0])
+		if k != "" && t != nil && c.uniqKey(t) != k {
+			movers[o[0]] = k
+		}
+	}
+	id := row[0]
+	// the listed row is a mover whose old key was taken by another row of theirs
+	if k, ok := movers[id]; ok {
+		for _, t := range c.theirs.C {
+			if t[0] != id && c.uniqKey(t) == k {
+				c.excluded++
+				return true
+			}
+		}
+	}
+	// the listed row took the key a mover left
+	for mid, k := range movers {
+		if mid != id && c.uniqKey(row) == k {
+			c.excluded++
+			return true
+		}
+	}
+	return false
 }
 
 func c24ShowListed(m map[c24Violation][]string) string {
@@ -592,7 +660,7 @@ func c24CaseTxn(rt *rapid.T, srv *vsql.Server, admin *vsql.Session, rec *vh.Reco
 // ---------------------------------------------------------------------------------------
 // part merge
 
-func c24CaseMerge(rt *rapid.T, srv *vsql.Server, admin *vsql.Session, rec *vh.Recorder) {
+func c24CaseMerge(rt *rapid.T, srv *vsql.Server, admin *vsql.Session, rec *vh.Recorder, falseUniqOpen bool) {
 	db := srv.NewDBName()
 	admin.MustExec(rt, "CREATE DATABASE "+db)
 	defer admin.Exec("DROP DATABASE " + db)
@@ -619,13 +687,20 @@ func c24CaseMerge(rt *rapid.T, srv *vsql.Server, admin *vsql.Session, rec *vh.Re
 		}
 	}
 	edit("main", a)
+	mainHead := c.snapshot(s, "HEAD")
 	_ = c.run(s, "CALL dolt_checkout('br')")
 	edit("br", b)
+	brHead := c.snapshot(s, "HEAD")
 	// merge direction and kind
 	onto, from := "main", "br"
 	if rapid.IntRange(0, 1).Draw(rt, "direction") == 1 {
 		onto, from = "br", "main"
 	}
+	c.ours, c.theirs = mainHead, brHead
+	if onto == "br" {
+		c.ours, c.theirs = brHead, mainHead
+	}
+	c.tolerateFalseUniq = falseUniqOpen
 	_ = c.run(s, "CALL dolt_checkout('"+onto+"')")
 	s.MustExec(rt, "SET @@dolt_force_transaction_commit = 1")
 	kind := rapid.SampledFrom([]string{"merge", "merge", "merge", "cherry_pick"}).Draw(rt, "kind")
@@ -680,7 +755,42 @@ func c24CaseMerge(rt *rapid.T, srv *vsql.Server, admin *vsql.Session, rec *vh.Re
 		_ = c.run(s, "CALL dolt_commit('-Am', 'after merge')")
 		c.checkRoot(s, "HEAD", "HEAD after "+kind, false)
 	}
+	if c.excluded > 0 {
+		rec.Excluded(c.excluded)
+		cl = append(cl, "false_unique_excluded_known")
+	}
 	rec.Case(strings.Join(c.ops, " ; "), nviol > 0, cl...)
+}
+
+// c24PinnedFalseUniq is the reproduction of finding C24-merge-false-unique-violation-reused-key.
+func c24PinnedFalseUniq(t *testing.T, srv *vsql.Server, admin *vsql.Session) string {
+	db := srv.NewDBName()
+	admin.MustExec(t, "CREATE DATABASE "+db)
+	defer admin.Exec("DROP DATABASE " + db)
+	s := srv.Session(t, "pin", db)
+	defer s.Close()
+	for _, q := range []string{
+		"CREATE TABLE c (id INT PRIMARY KEY, u INT, z INT, UNIQUE KEY uu (u))",
+		"INSERT INTO c VALUES (0,2,0),(5,1,0)",
+		"CALL dolt_commit('-Am','base')",
+		"CALL dolt_branch('br')",
+		"UPDATE c SET u = 7 WHERE id = 0",
+		"INSERT INTO c VALUES (6,2,0)",
+		"CALL dolt_commit('-Am','main')",
+		"CALL dolt_checkout('br')",
+		"UPDATE c SET z = 1 WHERE id = 5",
+		"CALL dolt_commit('-Am','br')",
+		"SET @@dolt_force_transaction_commit = 1",
+		"CALL dolt_merge('main')",
+	} {
+		s.MustExec(t, q)
+	}
+	rows := s.MustQuery(t, "SELECT id, u FROM c ORDER BY id")
+	viol := s.MustQuery(t, "SELECT violation_type, id, u FROM dolt_constraint_violations_c ORDER BY id")
+	if len(viol.Data) > 0 {
+		return fmt.Sprintf("main moves row 0 from u=2 to u=7 and inserts row 6 with u=2, br changes another column; merge main into br: rows (id,u) %s have distinct u, yet dolt_constraint_violations_c lists %s", vsql.Show(rows.Ordered()), vsql.Show(viol.Ordered()))
+	}
+	return ""
 }
 
 func TestVerif_C24(t *testing.T) {
@@ -690,6 +800,7 @@ func TestVerif_C24(t *testing.T) {
 		"for a group of rows sharing a unique key at most one member may be unlisted (dolt lists all of them)",
 		"merges that end with unresolved data conflicts are not evaluated (rows still undecided); conflicts are resolved with --ours first",
 		"CHECK passes when its expression is TRUE or NULL; UNIQUE ignores keys containing NULL",
+		"while finding "+c24FindingFalseUniq+" is listed open, a falsely listed unique-index violation is skipped (counted excluded_known) when it is the row that the merged-in branch moved away from a unique value or the row that took that value",
 	}
 	recT := vh.NewRecorder("C24", "txn", "exploration", c24Rule, assume...)
 	defer recT.Write(t)
@@ -699,5 +810,16 @@ func TestVerif_C24(t *testing.T) {
 	defer stop()
 	admin := srv.Session(t, "admin", "")
 	vh.Check(t, "txn", 160, 500, func(rt *rapid.T) { c24CaseTxn(rt, srv, admin, recT) })
-	vh.Check(t, "merge", 160, 500, func(rt *rapid.T) { c24CaseMerge(rt, srv, admin, recM) })
+	openFU := vh.OpenFinding("C24", c24FindingFalseUniq)
+	t.Run("pinned_false_unique_violation", func(t *testing.T) {
+		if msg := c24PinnedFalseUniq(t, srv, admin); msg != "" {
+			if openFU {
+				vh.ReportKnown("C24", c24FindingFalseUniq, msg)
+				return
+			}
+			vh.NoteViolation(t.Name(), "", `{"sql":"see c24PinnedFalseUniq","observed":"`+strings.ReplaceAll(msg, `"`, `'`)+`"}`)
+			t.Errorf("%s", msg)
+		}
+	})
+	vh.Check(t, "merge", 160, 500, func(rt *rapid.T) { c24CaseMerge(rt, srv, admin, recM, openFU) })
 }
